@@ -92,7 +92,7 @@ class Class(abc.ABCMeta):
     ):
         if origin:
             assert not issubclass(origin, flow.Actor), 'Already an actor'
-        if mapping:
+        if mapping is not None:  # an empty mapping (parameterless decorator) still gets the defaults
             mapping = dict(mapping)
             if not all(
                 isinstance(a, (str, typing.Callable))  # pylint: disable=isinstance-second-argument-not-valid-type
